@@ -135,6 +135,26 @@ Theorem C08_failover_reply_under_own_secret :
 Proof. exact authenticate_failover_authentic. Qed.
 Print Assumptions C08_failover_reply_under_own_secret.
 
+(* ... and under EVERY policy [rej] of ignoring verifying datagrams with an irregular Message-Authenticator (the admissible
+   choice of cstep_g, per datagram): the deciding datagram still verifies under the deciding server's own secret.  A single
+   server is the one-element list. *)
+Theorem C08_failover_authentic_any_policy :
+  forall md5raw fl, f_reply fl = true ->
+  forall (rej : bytes -> bool) extract servers,
+    match authenticate_failover_g md5raw fl rej extract servers with
+    | AAllowed attrs =>
+      exists pre s post d p, servers = pre ++ s :: post /\
+        Forall (fun s' => try_server_g md5raw fl rej s' = None) pre /\
+        verified_on md5raw s d /\ parse d = Some p /\ p_code p = 2 /\ attrs = extract (p_attrs p)
+    | ADenied =>
+      exists pre s post d p, servers = pre ++ s :: post /\
+        Forall (fun s' => try_server_g md5raw fl rej s' = None) pre /\
+        verified_on md5raw s d /\ parse d = Some p /\ p_code p = 3
+    | AError => True
+    end.
+Proof. exact authenticate_failover_g_authentic. Qed.
+Print Assumptions C08_failover_authentic_any_policy.
+
 (* toy hash used only for concrete witnesses (the theorems hold for every function) *)
 Definition toy (l : bytes) : bytes := [fold_left (fun a x => (a * 31 + x + 7) mod 256) l 1].
 Definition ex_secret : bytes := [115; 51].
